@@ -10,7 +10,7 @@ m = {
  "hooks": {"guard": "verif", "enable": "none needed: harnesses are injected with go/packages Overlay (engine) and go test -overlay (native replay); no hook commits in /repo",
            "baseline_off_cmd": "cd /repo && go test -mod=mod -vet=off -count=1 ./...", "source_commits": [], "add_only": True},
  "engines": [{"name": "symgo", "path": "/verif/engine", "serves_properties": [p for p in props if p in checks and p in meta["claimed"]],
-              "kind_free_text": "own symbolic executor for go/ssa (x/tools v0.29.0): integers/bools/string bytes are QF_BV terms, paths forked by re-execution, every branch/assertion decided by z3 (cvc5/z3-new as alternates) through a live pipe; counterexamples replayed against the native build with go test -overlay"}],
+              "kind_free_text": "own symbolic executor for go/ssa (x/tools v0.29.0): integers/bools/string bytes are QF_BV terms, paths forked by re-execution, every branch/assertion decided by cvc5 or z3 (per harness; z3-new as alternate; the thorough tier re-decides most harnesses with the other solver) through a live pipe; schedules explored by bounded preemption; differential harnesses run one solver-produced witness per model path on the real code; counterexamples replayed against the native build with go test -overlay"}],
  "checks": [], "not_applicable": [],
  "notes": meta.get("notes", "")
 }
@@ -24,9 +24,9 @@ for p in props:
             "evidence_file": f"/verif/evidence/{p}.json",
             "replay_cmd_template": "./check replay {path}",
             "engine": "symgo",
-            "level_claimed": {"category": "model_checking", "text": c["text"], "design_ref": c.get("design_ref", "DESIGN.md §5 " + p)},
+            "level_claimed": {"category": "model_checking", "text": c["text"], "design_ref": c.get("design_ref", "DESIGN.md §0 (as built) and §5 " + p)},
             "level_note": c["note"],
-            "technique": c.get("technique", "bounded symbolic execution of the real functions' go/ssa with SMT (QF_BV, z3) deciding every path condition and assertion; counterexamples replayed natively"),
+            "technique": c.get("technique", "bounded symbolic execution of the real functions' go/ssa with SMT (QF_BV; cvc5 or z3) deciding every path condition and assertion; counterexamples replayed natively"),
         })
     else:
         m["not_applicable"].append({"property_id": p, "reason": meta["not_applicable"].get(p, "check not built yet in this session (solver-based harness pending)")})
